@@ -237,6 +237,13 @@ class ObjSym(SymObject):
         self.__dict__["_attrs"] = attrs
 
 
+class SqrtVal(SymObject):
+    """sqrt(inner), kept apart so that the radicand can be compared"""
+
+    def __init__(self, inner: LP):
+        self.inner = inner
+
+
 class AbsVal(SymObject):
     """scale * |inner|"""
 
@@ -601,6 +608,8 @@ class Interp:
                 raise Unknown("slice bound")
             return slice(part(s.lower), part(s.upper), part(s.step))
         v = self.ev(s, env)
+        if isinstance(v, tuple) and all(isinstance(x, (int, list)) for x in v):
+            return v
         if isinstance(v, (int, list)) or v is Ellipsis:
             return v
         raise Unknown("index")
@@ -653,7 +662,7 @@ class Interp:
     def _call(self, e: ast.Call, env: dict):
         f = e.func
         name = f.attr if isinstance(f, ast.Attribute) else f.id if isinstance(f, ast.Name) else ""
-        is_np = isinstance(f, ast.Attribute) and isinstance(f.value, ast.Name) and f.value.id in ("np", "numpy")
+        is_np = isinstance(f, ast.Attribute) and isinstance(f.value, ast.Name) and f.value.id in ("np", "numpy", "math")
         if isinstance(f, ast.Attribute) and not is_np:
             try:
                 recv = self.ev(f.value, env)
@@ -808,7 +817,7 @@ class Interp:
                 a_, b_ = self.ev(e.args[0], env), self.ev(e.args[1], env)
                 if isinstance(a_, int) and isinstance(b_, int):
                     return range(a_, b_)
-            if name in ("maximum", "minimum", "abs", "absolute", "sqrt") and e.args:
+            if name in ("maximum", "minimum", "abs", "absolute", "sqrt") and e.args and not (name == "sqrt" and self.ratio_mode):
                 args = [self.num(self.ev(a, env)) for a in e.args]
                 if isinstance(args[0], Table):
                     # elementwise, value not known: one positive atom per entry (only normalisation factors use these)
@@ -831,6 +840,35 @@ class Interp:
                 v = self.ev(e.args[0], env)
                 if isinstance(v, int) and not isinstance(v, bool):
                     return range(v)
+            if name == "triu_indices" and len(e.args) == 1:
+                n_ = self.ev(e.args[0], env)
+                if isinstance(n_, int) and n_ <= 6:
+                    pairs = [(i, j) for i in range(n_) for j in range(i, n_)]
+                    return ([i for i, _j in pairs], [j for _i, j in pairs])
+            if name == "factorial" and len(e.args) == 1:
+                n_ = self.ev(e.args[0], env)
+                if isinstance(n_, int) and 0 <= n_ <= 10:
+                    out_ = 1
+                    for k_ in range(2, n_ + 1):
+                        out_ *= k_
+                    return out_
+            if name == "concatenate" and e.args:
+                v = self.ev(e.args[0], env)
+                axis = next((self.ev(k_.value, env) for k_ in e.keywords if k_.arg == "axis"), 0)
+                if isinstance(v, list) and v and all(isinstance(x, Table) and len(x.shape) == 2 and x.shape[1] == v[0].shape[1] for x in v) and axis == 0:
+                    rows = [x.get(i) for x in v for i in range(x.shape[0])]
+                    return _stack_rows(rows)
+            if name == "sqrt" and len(e.args) == 1 and self.ratio_mode:
+                v = self.ev(e.args[0], env)
+                if isinstance(v, (LP, int)):
+                    return SqrtVal(self.lp(v))
+            if name == "sum" and len(e.args) == 1 and any(k_.arg == "axis" for k_ in e.keywords):
+                v = self.num(self.ev(e.args[0], env))
+                axis = next(self.ev(k_.value, env) for k_ in e.keywords if k_.arg == "axis")
+                if isinstance(v, Table) and len(v.shape) == 2 and axis in (1, -1):
+                    return Table((v.shape[0],), {(i,): sum((v.data[(i, j)] for j in range(v.shape[1])), LP()) for i in range(v.shape[0])})
+                if isinstance(v, Table) and len(v.shape) == 2 and axis in (0, -2):
+                    return Table((v.shape[1],), {(j,): sum((v.data[(i, j)] for i in range(v.shape[0])), LP()) for j in range(v.shape[1])})
             if name == "isinstance" and len(e.args) == 2:
                 v = self.ev(e.args[0], env)
                 names_ = [x.id for x in (e.args[1].elts if isinstance(e.args[1], ast.Tuple) else [e.args[1]]) if isinstance(x, ast.Name)]
@@ -893,6 +931,14 @@ class Interp:
                 return QuadricSym(v)
         if isinstance(f, ast.Attribute) and name in ("dot",) and len(e.args) == 1:
             return _dot(self.num(self.ev(f.value, env)), self.num(self.ev(e.args[0], env)))
+        if isinstance(f, ast.Attribute) and name == "reshape" and e.args:
+            v = self.ev(f.value, env)
+            shp = self.ev(e.args[0], env) if len(e.args) == 1 else [self.ev(a_, env) for a_ in e.args]
+            shp = tuple(shp) if isinstance(shp, (list, tuple)) else (shp,)
+            if isinstance(v, Table) and len(v.shape) == 1 and shp in ((1, v.shape[0]), (1, -1)):
+                return Table((1, v.shape[0]), {(0, i): v.data[(i,)] for i in range(v.shape[0])})
+            if isinstance(v, Table) and shp == v.shape:
+                return v
         if isinstance(f, ast.Attribute) and name == "copy" and not e.args:
             v = self.ev(f.value, env)
             return v.copy() if isinstance(v, Table) else v
@@ -1731,4 +1777,67 @@ def rule_polygon_measures(run: Run, prog: Program) -> int:
                     run.add("E19.poly", fn.short, label, VIOLATION,
                             "the returned point is not the area centroid of the polygon"
                             + (": the triangles of the fan are weighted by ABSOLUTE areas - right for convex polygons only, a reflex vertex makes a triangle of the fan negative" if has_abs else ""), loc)
+    return n_ob
+
+
+def rule_simplex_volume(run: Run, prog: Program) -> int:
+    run.rule("E19.simplex", "Simplex.volume for symbolic vertices: with as many vertices as homogeneous coordinates it is |det| / (n-1)!, otherwise the Cayley-Menger "
+                            "expression, whose radicand must be the squared length (2 vertices) or the squared area 1/4 (|u|^2 |v|^2 - (u.v)^2) (3 vertices in 3-space)")
+    cls = prog.find_cls("Simplex")
+    fn = prog.lookup(cls, "volume") if cls else None
+    if fn is None:
+        run.add("E19.simplex", "Simplex.volume", "volume", UNDECIDED, "Simplex.volume not found", "")
+        return 0
+    fn = prog.body_of(fn)
+    n_ob = 0
+    for n, k in ((2, 3), (2, 4), (3, 3), (3, 4), (4, 4)):
+        n_ob += 1
+        label = f"{n} vertices with {k} homogeneous coordinates"
+        coords = [[LP.sym(f"{'abcd'[i]}{j}") for j in range(k - 1)] + [LP.const(1)] for i in range(n)]
+        verts = [PointObj(Table((k,), {(j,): c for j, c in enumerate(row)})) for row in coords]
+        me = ObjSym(cls, vertices=verts, dim=k - 1)
+        it = Interp(prog, cls, {})
+        it.ratio_mode = True
+        it.hooks = {**library_hooks(it), "_normalize_array": lambda a_, k_: a_[-1]}
+        try:
+            got = it.run_method(fn, me, [], {})
+        except (Unknown, NotPolynomial, RecursionError) as ex:
+            run.add("E19.simplex", fn.short, label, UNDECIDED, f"not read: {str(ex)[:100]}", fn.loc)
+            continue
+        diffs = [[coords[i][j] - coords[0][j] for j in range(k - 1)] for i in range(1, n)]
+
+        def dotp(u, v):
+            return sum((a_ * b_ for a_, b_ in zip(u, v)), LP())
+        if n == k:
+            m = Table((n, n), {(i, j): coords[i][j] for i in range(n) for j in range(n)})
+            fact = 1
+            for q in range(2, n):
+                fact *= q
+            want = _det_table(m) * LP.const(Fraction(1, fact))
+            if isinstance(got, AbsVal) and any((got.inner * got.scale - want * LP.const(s_)).is_zero() for s_ in (1, -1)):
+                run.add("E19.simplex", fn.short, label, PROVEN, f"|det of the vertices| / {fact}", fn.loc)
+            elif isinstance(got, AbsVal):
+                run.add("E19.simplex", fn.short, label, VIOLATION, f"the volume is {got.scale.show()} * |det|, the simplex with {n} vertices has |det| / {fact}", fn.loc)
+            else:
+                run.add("E19.simplex", fn.short, label, UNDECIDED, f"the returned value is not read as a multiple of |det| ({getattr(got, 'why', type(got).__name__)[:80]})", fn.loc)
+            continue
+        if n == 2:
+            want2 = dotp(diffs[0], diffs[0])
+            what = "the squared distance of the two vertices"
+        else:
+            u, v = diffs
+            want2 = (dotp(u, u) * dotp(v, v) - dotp(u, v) * dotp(u, v)) * LP.const(Fraction(1, 4))
+            what = "the squared area 1/4 (|u|^2 |v|^2 - (u.v)^2) of the triangle"
+        if isinstance(got, SqrtVal):
+            if (got.inner - want2).is_zero():
+                run.add("E19.simplex", fn.short, label, PROVEN, f"the radicand of the Cayley-Menger expression is {what}", fn.loc)
+            else:
+                ratio = None
+                for c_ in (2, 4, Fraction(1, 2), Fraction(1, 4), -1, 8, Fraction(1, 8), 16, Fraction(1, 16)):
+                    if (got.inner - want2 * LP.const(c_)).is_zero():
+                        ratio = c_
+                run.add("E19.simplex", fn.short, label, VIOLATION,
+                        f"the radicand of the Cayley-Menger expression is not {what}" + (f": it is {ratio} times that" if ratio is not None else ""), fn.loc)
+        else:
+            run.add("E19.simplex", fn.short, label, UNDECIDED, f"the returned value is not read as a square root ({getattr(got, 'why', type(got).__name__)[:80]})", fn.loc)
     return n_ob
